@@ -13,6 +13,11 @@ fn main() {
         usage();
     }
     let id = args[1].clone();
+    if id == "worker-ladder" {
+        let n = |i: usize| args[i].parse::<usize>().unwrap();
+        let code = verif::props::c01::ladder_worker(n(2), n(3), args[4] == "1", n(5));
+        std::process::exit(code);
+    }
     if id == "probe" {
         // check probe WIDTH CFGJSON HTML  — ad-hoc rendering for triage
         let w: usize = args[2].parse().unwrap();
